@@ -130,7 +130,7 @@ class Executor:
     g=s.lookup_global(n)
     if g is None:
       if s.spec: raise ToolError(f"unbound name {n} in contract expression")
-      yield st,Exc('NameError',n)
+      raise Unsupported(f"global name {n} is not modelled (imported module / unknown object)")
     else: yield st,g
 
   def lookup_global(s,n):
@@ -176,7 +176,10 @@ class Executor:
       for st2,t in s.truth(c,st1):
         if isinstance(t,Exc): yield st2,t; continue
         if s.spec:
-          # contract expressions stay path-free: build an ite over both arms
+          # contract expressions stay path-free: build an ite over both arms (only the live arm if the test is constant)
+          t=z3.simplify(t)
+          if z3.is_true(t): yield from s.ev(e.body,st2); continue
+          if z3.is_false(t): yield from s.ev(e.orelse,st2); continue
           ra=list(s.ev(e.body,st2)); rb=list(s.ev(e.orelse,st2))
           if len(ra)!=1 or len(rb)!=1: raise ToolError("branching inside contract if-expression")
           a,b=ra[0][1],rb[0][1]
@@ -378,6 +381,11 @@ class Executor:
       yield from s.getattr(o,e.attr,st1)
 
   def getattr(s,o,attr,st):
+    if isinstance(o,SuperV):
+      yield st,Fn(f'{o.parent}.{attr}',o.selfv); return
+    if isinstance(o,ClsN):
+      if attr=='nbits': yield st,I(o.n); return
+      yield st,Fn(f'{o.base}.{attr}'); return
     if isinstance(o,Ref):
       if (o.id,attr) in st.heap: yield st,st.heap[(o.id,attr)]; return
       if s.spec:
@@ -468,6 +476,9 @@ class Executor:
 
   # ---------------------------------------------------------------------------------------------- calls
   def call(s,f,args,kw,st,node=None):
+    if isinstance(f,ClsN):
+      # generated fixed-width subclass (bits_import template, verified separately): BitsN(v, trunc_int=..) == Bits.__init__(N, v, trunc_int)
+      yield from s.call_contract(f'{f.base}.__init__',None,[I(f.n)]+list(args),kw,st,ctor=f.base); return
     if isinstance(f,Cls):
       if f.name in EXC_PARENTS or s.reg.is_exception(f.name):
         yield st,st.alloc('exc:'+f.name); return
@@ -527,14 +538,39 @@ class Executor:
       elif rt is not None:
         res=mk_value(rt,'ret_'+name.split('.')[-1],st1,fresh=True)
       env2=dict(env)
-      if res is not None: env2['result']=res
       if ctor is not None: env2['self']=selfv
+      # postcondition conjuncts that *define* the result (result == E, result.f == E, self.f == E for a havoced field) are applied
+      # by substitution instead of through a fresh symbol plus an equation: same meaning, fewer symbols, syntactic matching survives
+      if cs.ensures:
+        for cl in cs.clauses():
+          if not (isinstance(cl,ast.Compare) and len(cl.ops)==1 and isinstance(cl.ops[0],ast.Eq)): continue
+          L,R=cl.left,cl.comparators[0]
+          if any(isinstance(x,ast.Name) and x.id=='result' for x in ast.walk(R)): continue
+          try:
+            if isinstance(L,ast.Name) and L.id=='result' and isinstance(rt,(IntT,BoolT)):
+              v=sub.spec_val(R,env2,st1,st1.heap,pre_heap)
+              if is_intlike(v): res=I(as_int(v)) if isinstance(rt,IntT) else (v if isinstance(v,B) else res)
+            elif isinstance(L,ast.Attribute) and isinstance(L.value,ast.Name) and L.value.id=='result' and isinstance(res,Ref):
+              v=sub.spec_val(R,env2,st1,st1.heap,pre_heap)
+              if is_intlike(v) and (res.id,L.attr) in st1.heap: st1.heap[(res.id,L.attr)]=I(as_int(v))
+          except ToolError: pass
+      if res is not None: env2['result']=res
       if cs.ensures:
         post=sub.spec_bool(cs.ensures,env2,st1,st1.heap,pre_heap)
         st1.pc.append(post)
       if ctor is not None: yield st1,selfv
       elif rt is None: yield st1,NONE
       else: yield st1,res
+
+  def spec_val(s,tree,env,st,heap,old_heap,old_env=None):
+    st2=st.fork(); st2.heap=heap; st2.env=dict(env)
+    st2.entry_heap=old_heap if old_heap is not None else heap
+    st2.entry_env=old_env if old_env is not None else env
+    old=s.spec; s.spec=True
+    try: rs=list(s.ev(tree,st2))
+    finally: s.spec=old
+    if len(rs)!=1 or isinstance(rs[0][1],Exc): raise ToolError("contract expression is not a value")
+    return rs[0][1]
 
   def spec_bool(s,src,env,st,heap,old_heap,old_env=None):
     """evaluate a contract expression (string) to a z3 Bool in the given heap."""
@@ -769,6 +805,9 @@ class Executor:
     return None
 
   def st_While(s,n,st):
+    spec=s.loop_spec(n)
+    if spec is not None:
+      yield from s.while_inv(n,spec,st); return
     h=s.reg.while_handler(s,n,st)
     if h is not None: yield from h; return
     # no invariant: bounded concrete unrolling is only acceptable if the condition becomes concretely false
@@ -789,6 +828,82 @@ class Executor:
             elif ctl[0]=='break': yield st3,None
             else: yield st3,ctl
     yield from go(st,0)
+
+  # ---- loops under contract -----------------------------------------------------------------------
+  def loop_spec(s,n):
+    """sidecar loop contract of the loop statement n of the function being verified (keyed by ordinal)."""
+    c=getattr(s,'contract',None)
+    if c is None or not c.loops: return None
+    fn=c.fn_ast(s.reg)
+    loops=[x for x in ast.walk(fn) if isinstance(x,(ast.For,ast.While))]
+    loops.sort(key=lambda x:(x.lineno,x.col_offset))
+    for i,x in enumerate(loops):
+      if x is n or (x.lineno==n.lineno and x.col_offset==n.col_offset and type(x)==type(n)):
+        return c.loops.get(i+1)
+    return None
+
+  def assigned_names(s,body):
+    out=set()
+    for b in body:
+      for x in ast.walk(b):
+        if isinstance(x,ast.Name) and isinstance(x.ctx,ast.Store): out.add(x.id)
+    return out
+
+  def havoc_locals(s,st,names):
+    for nm in sorted(names):
+      v=st.env.get(nm)
+      if v is None: continue
+      if isinstance(v,B): st.env[nm]=B(st.fresh_bool(nm))
+      elif isinstance(v,I): st.env[nm]=I(st.fresh_int(nm))
+      else: raise Unsupported(f"loop modifies local {nm} of non-scalar type {v!r}")
+
+  def inv_vc(s,kind,n,spec,st,entry):
+    st=st.fork()
+    for cl in spec.lemmas:      # definitional unfoldings of spec functions, instantiated on the current state
+      st.pc.append(s.spec_bool(cl,st.env,st,st.heap,st.entry_heap,st.entry_env))
+    for k,cl in enumerate(spec.invariant):
+      g=s.spec_bool(cl,st.env,st,st.heap,st.entry_heap,st.entry_env)
+      st.vcs.append((kind,f"loop@{n.lineno}::{k}",list(st.pc),g,st))
+
+  def while_inv(s,n,spec,st):
+    s.inv_vc('inv-init',n,spec,st,None)
+    st1=st.fork()
+    s.havoc_locals(st1,s.assigned_names(n.body))
+    for loc in spec.modifies:
+      o,f=loc.split('.'); ov=st1.env[o]
+      st1.heap[(ov.id,f)]=I(st1.fresh_int(f"{o}.{f}@loop"))
+    for cl in spec.invariant:
+      st1.pc.append(s.spec_bool(cl,st1.env,st1,st1.heap,st1.entry_heap,st1.entry_env))
+    for cl in spec.lemmas:
+      st1.pc.append(s.spec_bool(cl,st1.env,st1,st1.heap,st1.entry_heap,st1.entry_env))
+    m0=None
+    if spec.decreases is not None:
+      m0=s.spec_int(spec.decreases,st1)
+    for st2,c in s.ev(n.test,st1):
+      if isinstance(c,Exc): yield st2,('raise',c); continue
+      for st3,t in s.truth(c,st2):
+        if isinstance(t,Exc): yield st3,('raise',t); continue
+        for st4,side in s.branch(st3,t):
+          if not side:
+            for cl in spec.lemmas: st4.pc.append(s.spec_bool(cl,st4.env,st4,st4.heap,st4.entry_heap,st4.entry_env))
+            if n.orelse: yield from s.block(n.orelse,st4)
+            else: yield st4,None
+            continue
+          for st5,ctl in s.block(n.body,st4):
+            if ctl is None or ctl[0]=='continue':
+              s.inv_vc('inv-step',n,spec,st5,None)
+              if m0 is not None:
+                m1=s.spec_int(spec.decreases,st5)
+                st5.vcs.append(('decreases',f"loop@{n.lineno}",list(st5.pc),z3.And(m0>=0,m1<m0),st5))
+            elif ctl[0]=='break': yield st5,None
+            else: yield st5,ctl
+
+  def spec_int(s,src,st):
+    tree=parse_spec(src) if isinstance(src,str) else src
+    st2=st.fork(); old=s.spec; s.spec=True
+    try: rs=list(s.ev(tree,st2))
+    finally: s.spec=old
+    return as_int(rs[0][1])
 
   def st_FunctionDef(s,n,st):
     st=st.fork(); st.env[n.name]=Fn('local:'+n.name); yield st,None
@@ -877,6 +992,7 @@ def type_tag(v,st=None):
   if isinstance(v,Ref): return v.cls
   if isinstance(v,SliceV): return 'slice'
   if isinstance(v,Tup): return 'tuple'
+  if isinstance(v,ClsN): return 'bitscls'
   if isinstance(v,Cls): return 'class:'+v.name
   if isinstance(v,Opq): return v.kind
   return type(v).__name__
@@ -1024,7 +1140,21 @@ def _bi_intcls(s,args,kw,st):
 def _bi_boolcls(s,args,kw,st):
   yield from _bi_bool(s,None,args,kw,st)
 
-BUILTIN_FNS={'int':_bi_int,'isinstance':_bi_isinstance,'abs':_bi_abs,'hex':_bi_hex,'str':_bi_str,'repr':_bi_repr,
+def _bi_super(s,f,args,kw,st):
+  fn=getattr(s,'cur_fn',None); cls=getattr(s,'cur_cls',None)
+  if fn is None or cls is None: raise Unsupported("super() outside a method under contract")
+  selfv=st.env[fn.args.args[0].arg]
+  bases=s.reg.classes[cls]['bases']
+  if not bases: raise Unsupported("super() without base class")
+  yield st,SuperV(selfv,bases[0])
+
+def _bi_issubclass(s,f,args,kw,st):
+  a,b=args
+  if isinstance(a,ClsN) and isinstance(b,Cls): yield st,B(s.reg.is_subclass(a.base,b.name)); return
+  if isinstance(a,Cls) and isinstance(b,Cls): yield st,B(s.reg.is_subclass(a.name,b.name)); return
+  yield st,Exc('TypeError','issubclass() arg 1 must be a class')
+
+BUILTIN_FNS={'super':_bi_super,'issubclass':_bi_issubclass,'int':_bi_int,'isinstance':_bi_isinstance,'abs':_bi_abs,'hex':_bi_hex,'str':_bi_str,'repr':_bi_repr,
   'len':_bi_len,'range':_bi_range,'hash':_bi_hash,'object.__new__':_bi_object_new,'min':_bi_minmax,'max':_bi_minmax,
   'bool':_bi_bool,'int.bit_length':_bi_bit_length,'bin':_bi_str,'oct':_bi_str}
 BUILTIN_CLS={'slice':_bi_slice,'tuple':_bi_tuple,'list':_bi_listctor,'int':_bi_intcls,'bool':_bi_boolcls,'object':None,'str':None}
@@ -1042,6 +1172,7 @@ def _sf_iff(s,args,st):
   return B(a==b)
 def _sf_divp(s,args,st): return I(st.th.divp(as_int(args[0]),as_int(args[1])))   # x div 2^k
 def _sf_modp(s,args,st): return I(st.th.modp(as_int(args[0]),as_int(args[1])))   # x mod 2^k
+def _sf_shl(s,args,st): return I(st.th.shl(as_int(args[0]),as_int(args[1])))   # x * 2^k
 def _sf_b2i(s,args,st): return I(as_int(args[0]))
 def _sf_fresh(s,args,st):
   # fresh(result): the object did not exist on entry
@@ -1059,7 +1190,7 @@ def _sf_unset(s,args,st):
   raise ToolError("unset() handled as a form")
 
 SPEC_FUNS={'pow2':_sf_pow2,'band':_sf_band,'bor':_sf_bor,'bxor':_sf_bxor,'implies':_sf_implies,'iff':_sf_iff,
-  'divp':_sf_divp,'modp':_sf_modp,'b2i':_sf_b2i,'fresh':_sf_fresh,'same':_sf_same,'isnone':_sf_isnone,'hash_of':_sf_hash_of}
+  'divp':_sf_divp,'modp':_sf_modp,'shl':_sf_shl,'b2i':_sf_b2i,'fresh':_sf_fresh,'same':_sf_same,'isnone':_sf_isnone,'hash_of':_sf_hash_of}
 for _k in SPEC_FUNS: BUILTIN_FNS.setdefault(_k,None)
 for _k in list(BUILTIN_FNS):
   if BUILTIN_FNS[_k] is None: del BUILTIN_FNS[_k]
@@ -1100,3 +1231,27 @@ def define_macro(sig,body):
   from .symexec_macros import MACROS
   MACROS[name]=(params,body)
   SPEC_FORMS[name]=_form_macro(name)
+
+def register_spec_fun(name,sym,native):
+  """sidecar-defined spec function: sym(executor,args,state)->Val ; native(*args)->value"""
+  SPEC_FUNS[name]=sym
+  from . import runtime
+  runtime.NATIVE[name]=native
+
+class BitsClsT(SpecType):
+  """a generated BitsN class object with symbolic N (bits_import template)."""
+  tag='bitscls'
+  def make(s,name,st,fresh):
+    pins=st.ghost.get('__pins__') or {}
+    nm=f"{name}.N"
+    c=z3.IntVal(pins[nm]) if nm in pins else z3.Int(nm)
+    st.syms.append((nm,c)); st.pc.append(z3.And(c>=1,c<=1023))
+    return ClsN('Bits',c)
+  def build_native(s,name,model,repo,reg):
+    from . import runtime
+    m=runtime.load_module(repo,'pymtl3/datatypes/bits_import.py')
+    return m.mk_bits(int(model.get(f"{name}.N",1)))
+  def sample(s,rng,n,repo,reg):
+    from . import runtime
+    m=runtime.load_module(repo,'pymtl3/datatypes/bits_import.py')
+    return m.mk_bits(rng.choice([n,n,max(1,n-1),min(1023,n+1),rng.choice([1,2,8,32,64,512,1023])]))
